@@ -96,6 +96,21 @@ func init() {
 			_, f := parseRes(after)
 			if want := docText(g.x.items[idOf(it)]); unhx(f["text"]) != want {
 				viol = append(viol, fmt.Sprintf("after Update the cell text is %q, documented form of the mutated item is %q", unhx(f["text"]), want))
+			} else if (f["empty"] == "1") != (want == "") {
+				viol = append(viol, fmt.Sprintf("after Update Empty()=%s but the text is %q", f["empty"], want))
+			}
+			// empty -> non-empty -> empty through Update
+			it2 := g.item(fmt.Sprintf("obj:%d:s=-:g=-:e=-", 1+r.n(7)))
+			row2 := g.do("newrow")
+			g.do("rowadd " + row2 + " " + it2)
+			for _, txt := range []string{r.text(alphaPlain, 2) + "x", ""} {
+				g.do(fmt.Sprintf("mutate %s s=%s g=%s e=%s", it2, hx(txt), hx(txt), hx(txt)))
+				g.do("update " + row2 + " 0")
+				_, f2 := parseRes(g.do("cellobs " + row2 + " 0"))
+				want2 := docText(g.x.items[idOf(it2)])
+				if unhx(f2["text"]) != want2 || (f2["empty"] == "1") != (want2 == "") {
+					viol = append(viol, fmt.Sprintf("after mutating an item to %q and Update: text %q, Empty()=%s", want2, unhx(f2["text"]), f2["empty"]))
+				}
 			}
 			// nested cells, including the zero value
 			z := g.item("zerocell")
